@@ -159,6 +159,37 @@ theorem hermitize_props {K : Type} [Field K] [StarRing K] (h2 : (2 : K) ≠ 0) (
   refine ⟨hermitize_hermitian A, hermitize_fix h2 A, ?_⟩
   exact hermitize_fix h2 _ (fun a b => hermitize_hermitian A a b)
 
+/-! ## T4' — the `hermitian` / `antihermitean` option and the k layout -/
+
+/-- The option acts on the two band indices at fixed k WHATEVER the layout of the k index: for every re-indexing `φ` of the
+    k-points (flattening `(k1,k2,k3) ↦ k`, `reshapeKline=False`, a k list) hermitising the re-laid-out array is the
+    re-laid-out hermitised array. -/
+theorem hermK_layout_independent {K : Type} [Field K] {ι ι' : Type} (half : K) (conj : K → K) (sign : K)
+    (H : ι → Nat → Nat → K) (φ : ι' → ι) (k' : ι') (a b : Nat) :
+    hermK half conj sign (fun k => H (φ k)) k' a b = hermK half conj sign H (φ k') a b := rfl
+
+/-- `hermitian=True` is a no-op on a matrix that is Hermitian at every k (characteristic ≠ 2), in every layout;
+    `antihermitean=True` then returns 0. -/
+theorem hermK_noop_on_hermitian {K : Type} [Field K] [StarRing K] (h2 : (2 : K) ≠ 0) {ι : Type}
+    (H : ι → Nat → Nat → K) (hH : ∀ k a b, H k b a = star (H k a b)) (k : ι) (a b : Nat) :
+    hermK ((2 : K)⁻¹) star 1 H k a b = H k a b ∧ hermK ((2 : K)⁻¹) star (-1) H k a b = 0 := by
+  unfold hermK
+  rw [hH k a b, star_star]
+  constructor
+  · field_simp; ring
+  · ring
+
+/-- Exchanging GRID axes instead (what `swapaxes(1,2)` does to an array still in the `(N1,N2,N3,m,n)` layout) is a different
+    operation: one band, grid (1,2,2), real `H(k) = 1, 2, 3, 4` (Hermitian at every k): the correct option returns `H`,
+    the grid swap averages `H(0,0,1)` with `H(0,1,0)`. -/
+theorem swapping_grid_axes_differs :
+    let H : Vec3 → Nat → Nat → Rat := fun m _ _ => 1 + m.2.1 * 2 + m.2.2
+    let pts : List Vec3 := [(0, 0, 0), (0, 0, 1), (0, 1, 0), (0, 1, 1)]
+    pts.map (fun m => hermK (1 / 2) id 1 H m 0 0) = [1, 2, 3, 4] ∧
+    pts.map (fun m => hermSwapGrid (1 / 2) id H m 0 0) = [1, 5 / 2, 5 / 2, 4] := by
+  intro H pts
+  constructor <;> norm_num [H, pts, hermK, hermSwapGrid]
+
 /-! ## T5 — `Data_K_R._rotate` / `Xbar` glue -/
 
 /-- T5.  `_rotate` (`U†XU` per k-point, applied to every Cartesian component separately) maps a Hermitian matrix to a
